@@ -4,6 +4,7 @@ import (
 	"bytes"
 	"encoding/binary"
 	"fmt"
+	"io"
 
 	"verif/core"
 	"verif/ref"
@@ -21,7 +22,16 @@ type LZWCase struct {
 	// Hist: size-contract history — the Write lengths are taken literally (data
 	// is a long text), nothing is appended, Close follows.
 	Hist bool `json:",omitempty"`
+	// a part of -1 in a history is a Close call in the middle (refused while fewer than Size bytes have
+	// been written; the caller writes the rest and closes again)
+	// ByteSink: the sink also implements io.ByteWriter (the writer then works without its own bufio layer)
+	ByteSink bool `json:",omitempty"`
 }
+
+// sinkByteBuf is a sink that implements io.ByteWriter as well.
+type sinkByteBuf struct{ sinkBuf }
+
+func (s *sinkByteBuf) WriteByte(c byte) error { s.b = append(s.b, c); return nil }
 
 func init() {
 	register(&Check{ID: "C06", Level: "model_checking", Run: runC06})
@@ -42,15 +52,25 @@ func lzmaWriteExec(p LZWCase, data []byte) (sink []byte, calls []callRes, verr e
 	if verr = cfg.Verify(); verr != nil {
 		return
 	}
-	var sb sinkBuf
+	var sbb sinkByteBuf
+	sb := &sbb.sinkBuf
+	var sinkW io.Writer = sb
+	if p.ByteSink {
+		sinkW = &sbb
+	}
 	pan = core.Guard(func() {
-		w, err := p.Cfg.build().NewWriter(&sb)
+		w, err := p.Cfg.build().NewWriter(sinkW)
 		calls = append(calls, callRes{Call: "NewWriter", Err: err, Sink: len(sb.b)})
 		if err != nil {
 			return
 		}
 		rest := data
 		for _, k := range p.Parts {
+			if k == -1 {
+				err := w.Close()
+				calls = append(calls, callRes{Call: "CloseEarly", Err: err, Sink: len(sb.b)})
+				continue
+			}
 			if k > len(rest) {
 				k = len(rest)
 			}
@@ -118,8 +138,26 @@ func lzmaWriteCase(r *core.Run, prop string, p LZWCase) {
 	var hist []string
 	contractOK := true
 	var closeErr error
+	closedEarly := false
 	for _, c := range calls[1:] {
 		hist = append(hist, fmt.Sprintf("%s(%d)=(%d,%s)", c.Call, c.Len, c.N, errStr(c.Err)))
+		if closedEarly {
+			// the stream was completed by a Close in the middle: what later calls answer is not judged
+			continue
+		}
+		if c.Call == "CloseEarly" {
+			if (c.Err != nil) != (S >= 0 && accepted < S) {
+				contractOK = false
+			}
+			if c.Err == nil {
+				closedEarly = true
+				closeErr = nil
+				if c.Sink <= len(sink) {
+					sink = sink[:c.Sink]
+				}
+			}
+			continue
+		}
 		if c.Call == "Close" {
 			closeErr = c.Err
 			continue
@@ -138,7 +176,7 @@ func lzmaWriteCase(r *core.Run, prop string, p LZWCase) {
 		}
 	}
 	wantCloseErr := S >= 0 && accepted < S
-	if (closeErr != nil) != wantCloseErr {
+	if !closedEarly && (closeErr != nil) != wantCloseErr {
 		contractOK = false
 	}
 	if prop == "C06" && !contractOK {
@@ -427,6 +465,9 @@ func lzmaWCases(r *core.Run, prop string) []LZWCase {
 				ls = append(ls, v)
 			}
 		}
+		if S > 0 {
+			ls = append(ls, -1) // a Close in the middle
+		}
 		var rec func(pref []int)
 		rec = func(pref []int) {
 			for _, eos := range []bool{false, true} {
@@ -435,6 +476,9 @@ func lzmaWCases(r *core.Run, prop string) []LZWCase {
 						continue
 					}
 					add(LZWCase{Cfg: LZCfg{DictCap: 4096, SizeInHeader: true, Size: S, EOS: eos, Matcher: mt}, Shape: []Seg{{K: "T", Seed: 5, N: 40}}, Parts: append([]int{}, pref...), Hist: true})
+					if mt == 0 {
+						add(LZWCase{Cfg: LZCfg{DictCap: 4096, SizeInHeader: true, Size: S, EOS: eos, Matcher: mt}, Shape: []Seg{{K: "T", Seed: 5, N: 40}}, Parts: append([]int{}, pref...), Hist: true, ByteSink: true})
+					}
 				}
 			}
 			if len(pref) == 4 {
@@ -451,12 +495,13 @@ func lzmaWCases(r *core.Run, prop string) []LZWCase {
 	// writes with lengths from {1, 4096, 4904, 8999, 9000, 9001} then Close.
 	{
 		const S = 9000
-		ls := []int{1, 4096, S - 4096, S - 1, S, S + 1}
+		ls := []int{1, 4096, S - 4096, S - 1, S, S + 1, -1}
 		var rec func(pref []int)
 		rec = func(pref []int) {
 			if len(pref) > 0 {
 				for _, eos := range []bool{false, true} {
 					add(LZWCase{Cfg: LZCfg{DictCap: 4096, SizeInHeader: true, Size: S, EOS: eos}, Shape: []Seg{{K: "T", Seed: 6, N: 3 * (S + 1)}}, Parts: append([]int{}, pref...), Hist: true})
+					add(LZWCase{Cfg: LZCfg{DictCap: 4096, SizeInHeader: true, Size: S, EOS: eos}, Shape: []Seg{{K: "T", Seed: 6, N: 3 * (S + 1)}}, Parts: append([]int{}, pref...), Hist: true, ByteSink: true})
 				}
 			}
 			if len(pref) == 3 {
@@ -483,7 +528,7 @@ func runLZW(r *core.Run, prop string) {
 }
 
 func runC06(r *core.Run) {
-	r.Rule = "classic LZMA writer space: (a) all strings over {00,'a','b'} up to length n x all 225 property codes x both matchers x {EOS only, Size=len, Size=len+EOS} (Size=0 for the empty input); (b) longer heads with a compressible tail; (c) shape lists of depth 1-2 x DictCap x BufSize; (d) all compositions of 6-byte inputs into Write calls (+ zero-length writes); (e) size-contract histories: all sequences of <=4 Write lengths from {0,1,S-1,S,S+1} then Close for S in {0,1,5}, and all sequences of <=3 lengths from {1,4096,S-4096,S-1,S,S+1} for S=9000 (above the 4096-byte dictionary). Oracle: call contract, library round trip, header size truthful. states = (mode, accepted vs Size, close result); transitions = per-call classes; non-trivial = distinct (mode, result, size class, history length)"
+	r.Rule = "classic LZMA writer space: (a) all strings over {00,'a','b'} up to length n x all 225 property codes x both matchers x {EOS only, Size=len, Size=len+EOS} (Size=0 for the empty input); (b) longer heads with a compressible tail; (c) shape lists of depth 1-2 x DictCap x BufSize; (d) all compositions of 6-byte inputs into Write calls (+ zero-length writes); (e) size-contract histories: all sequences of <=4 calls from {Write of 0,1,S-1,S,S+1 bytes, Close in the middle} then Close for S in {0,1,5}, and all sequences of <=3 calls from {Write of 1,4096,S-4096,S-1,S,S+1 bytes, Close in the middle} for S=9000 (above the 4096-byte dictionary), with a plain sink and with a sink that is an io.ByteWriter. Oracle: call contract, library round trip, header size truthful. states = (mode, accepted vs Size, close result); transitions = per-call classes; non-trivial = distinct (mode, result, size class, history length)"
 	runLZW(r, "C06")
 	r.Assume("property sets with lc+lp>8 run on a seventh of the inputs (literal table of up to 6 MB per coder: cost bound)")
 }
